@@ -23,6 +23,17 @@ claim("C12",
       "(per-scalar exhaustive + random strings; the loop is assumed stateless); V8. Which constants pass through gen_lit_str is covered under C02/C04.",
       "Lean 4 proof (decoder round-trip by induction) + exhaustive model/implementation correspondence")
 
+claim("C03",
+      "Lean 4 theorem gen_derives: for every expression tree, allowed level and counter, the tokens emitted by the model of to_proc_gen_rec derive "
+      "(in a stratified ECMAScript grammar written from ECMA-262) exactly the intended JavaScript tree, so precedence/associativity/parenthesisation are right for "
+      "all nestings; its side conditions are decide-checked on the level/arm tables re-extracted from the Rust source on every run. Model tied by byte-equality of "
+      "value + hoisted statements against the real generator (exhaustive depth-2 operator pairs + random); real parser trees compared with intended trees; "
+      "V8 evaluates generated code vs a reference evaluation of the intended tree over an edge-value data pool.",
+      "Trusted: Lean kernel; axioms ⊆ {propext, Classical.choice, Quot.sound}; GE/Spec/JsGrammar.lean; the extractors; harness hook proc_gen_expr; V8. "
+      "Not yet proved: evaluation semantics (gen_preserves) and parser soundness are covered by the differential oracle only; lexing of concatenated spellings. "
+      "Known finding D14 (array spread via concat).",
+      "Lean 4 proof (mutual structural induction over the AST, table side conditions by decide) + differential correspondence + V8 oracle")
+
 ALL = ["C%02d" % i for i in range(1, 21)]
 
 def main():
